@@ -3,6 +3,7 @@
 package protocol
 
 import (
+	"errors"
 	"context"
 	"crypto/ed25519"
 	"crypto/x509"
@@ -215,13 +216,26 @@ func VerifC04NodeRefuses() {
 	}
 	inner := &types.NodeCredentials{ServerEncryptionPublicKeyBytes: vf.X25519Pub(9), ServerEncryptionPublicKeyType: types.KEYTYPE_X25519, RegistrationNonce: echoed,
 		CertificateBundles: []*types.CertificateBundle{{CertificateDer: []byte("leaf-1")}, {CertificateDer: []byte("leaf-2")}}}
-	enc, err := nodeenrollment.EncryptMessage(ctx, inner, rec)
-	if err != nil {
-		panic(err)
+	// the server key named in the clear on the response: the one the payload was encrypted with, a substitute, or a
+	// degenerate one
+	outerKey := vf.Int("response-names-server-key", 8, 10)
+	resp := &types.FetchNodeCredentialsResponse{ServerEncryptionPublicKeyType: types.KEYTYPE_X25519}
+	var err error
+	if outerKey == 10 {
+		// a degenerate key: the all-zero point (low order), whose "shared secret" with any private key is all zeros and
+		// therefore known to everybody; the payload is sealed under that secret and the node's public key ID.
+		// crypto/ecdh refuses such points.
+		resp.ServerEncryptionPublicKeyBytes = []byte("\x00\x00\x00\x00\x00\x00\x00\x00\x00\x00\x00\x00\x00\x00\x00\x00\x00\x00\x00\x00\x00\x00\x00\x00\x00\x00\x00\x00\x00\x00\x00\x00")
+		forgedId, _ := nodeenrollment.KeyIdFromPkix(vf.Pkix(2))
+		if resp.EncryptedNodeCredentials, err = nodeenrollment.EncryptMessage(ctx, inner, vfZeroSecret{id: forgedId}); err != nil {
+			panic(err)
+		}
+	} else {
+		resp.ServerEncryptionPublicKeyBytes = vf.X25519Pub(outerKey)
+		if resp.EncryptedNodeCredentials, err = nodeenrollment.EncryptMessage(ctx, inner, rec); err != nil {
+			panic(err)
+		}
 	}
-	// the server key named in the clear on the response: the one the payload was encrypted with, or a substitute
-	outerKey := vf.Int("response-names-server-key", 8, 9)
-	resp := &types.FetchNodeCredentialsResponse{EncryptedNodeCredentials: enc, ServerEncryptionPublicKeyBytes: vf.X25519Pub(outerKey), ServerEncryptionPublicKeyType: types.KEYTYPE_X25519}
 	out, err := node.HandleFetchNodeCredentialsResponse(ctx, nodeSt, resp)
 	legit := vf.And(vf.And(vf.And(serverView == 0, certView == 2), outerKey == 9), vf.EqBytes(echoed, nonce))
 	if err == nil {
@@ -246,6 +260,16 @@ func VerifC04NodeRefuses() {
 			ServerEncryptionPublicKeyBytes: vf.X25519Pub(9), ServerEncryptionPublicKeyType: types.KEYTYPE_X25519})
 		vf.Assert("genuine-response-accepted-after-a-refused-one", herr == nil)
 	}
+}
+
+// vfZeroSecret is a key producer whose shared secret is all zeros (what a low-order point yields).
+type vfZeroSecret struct{ id string }
+
+func (k vfZeroSecret) X25519EncryptionKey() (string, []byte, error) {
+	return k.id, []byte("\x00\x00\x00\x00\x00\x00\x00\x00\x00\x00\x00\x00\x00\x00\x00\x00\x00\x00\x00\x00\x00\x00\x00\x00\x00\x00\x00\x00\x00\x00\x00\x00"), nil
+}
+func (k vfZeroSecret) PreviousX25519EncryptionKey() (string, []byte, error) {
+	return "", nil, errors.New("no previous key")
 }
 
 // vfShortReader hands out at most n random bytes per call and reports how many it delivered.
